@@ -140,11 +140,7 @@ func shortTypeName(t types.Type) string {
 
 // typeID returns a stable (per universe) positive id of a Go type for dynamic type tests.
 func (u *Universe) typeID(t types.Type) int {
-	t = types.Unalias(t)
-	if b, ok := t.(*types.Basic); ok {
-		// rune/byte are spellings of int32/uint8: one dynamic type
-		t = types.Typ[b.Kind()]
-	}
+	t = canonType(t)
 	k := types.TypeString(t, nil)
 	if id, ok := u.typeIDs[k]; ok {
 		return id
@@ -155,12 +151,40 @@ func (u *Universe) typeID(t types.Type) int {
 	return id
 }
 
+// canonType: rune/byte are spellings of int32/uint8 - also inside slices, arrays, pointers and maps ([]rune and
+// []int32 are one dynamic type).
+func canonType(t types.Type) types.Type {
+	t = types.Unalias(t)
+	switch x := t.(type) {
+	case *types.Basic:
+		if x.Kind() < types.UntypedBool {
+			return types.Typ[x.Kind()]
+		}
+	case *types.Slice:
+		if e := canonType(x.Elem()); e != x.Elem() {
+			return types.NewSlice(e)
+		}
+	case *types.Array:
+		if e := canonType(x.Elem()); e != x.Elem() {
+			return types.NewArray(e, x.Len())
+		}
+	case *types.Pointer:
+		if e := canonType(x.Elem()); e != x.Elem() {
+			return types.NewPointer(e)
+		}
+	case *types.Map:
+		k, e := canonType(x.Key()), canonType(x.Elem())
+		if k != x.Key() || e != x.Elem() {
+			return types.NewMap(k, e)
+		}
+	}
+	return t
+}
+
 // uniqName: SMT-safe short name of a Go type; two different types with the same short name
 // (sync.Mutex and internal/sync.Mutex) get distinct names.
 func (u *Universe) uniqName(t types.Type) string {
-	if b, ok := types.Unalias(t).(*types.Basic); ok {
-		t = types.Typ[b.Kind()] // rune/byte are spellings of int32/uint8
-	}
+	t = canonType(t)
 	if u.nameOf == nil {
 		u.nameOf, u.nameUsed = map[string]string{}, map[string]string{}
 	}
